@@ -403,7 +403,7 @@ def r25(facts, res):
         r, projs, via = b.op_root(t['args'][0], through=Body.THROUGH + ('index_mut',), stop_named=False)
         if r in ets:
             sites.append((bb, cname(t)))
-    res.floor(R, 'edge-recording sites while processing a state', len(sites), 3)
+    res.floor(R, 'edge-recording sites while processing a state', len(sites), 2)
     bad = [(bb, nm) for bb, nm in sites if nm != 'insert']
     if bad:
         res.bad(R, 'edges-overwrite', loc_of(b, bad[0][0]),
